@@ -19,6 +19,7 @@ ARITH_VARS = [('c', 'char'), ('sc', 'signed char'), ('uc', 'unsigned char'), ('s
               ('i', 'int'), ('u', 'unsigned'), ('l', 'long'), ('ul', 'unsigned long'), ('ll', 'long long'), ('bo', '_Bool')]
 FLOAT_VARS = [('fl', 'float'), ('d', 'double'), ('ld', 'long double')]
 INT_TYPES = [t for _, t in ARITH_VARS if t != '_Bool']
+ADDR_OF_SCALAR = False   # see CGen.ptr_of
 # pointer variables: name -> (declared type, pointee may be read as an integer)
 PTR_VARS = {
     'pc': ('char *', True), 'pcc': ('const char *', True), 'pv': ('void *', False), 'pcv': ('const void *', False),
@@ -171,10 +172,10 @@ class CGen:
         if kind in ('pcc', 'pcvc'):
             opts += ['dflt@N@', '"text"', 'pc', 'st.p', '&dflt@N@[1]']
         if kind in ('pl', 'pcl'):
-            # not `&l`: taking the address of a plain scalar local in a function with a computed goto trips an assertion
-            # of mir-gen.c's transform_addr at -O2 (corpus/c17_observed_gen_addr_assert.c; a code-generation defect
-            # outside C17 / C18, reported to the coordinator)
-            opts += ['larr', '&larr[%s & 7]' % self.ivar(), '&larr[1]']
+            # `&l` (address of a plain scalar local) only when ADDR_OF_SCALAR: together with a computed goto it trips an
+            # assertion of mir-gen.c's transform_addr at -O2 on /repo d4dd1979 (the address-taken pseudo is split into
+            # several SSA names; corpus/c17_observed_gen_addr_assert.c, fixes/C17-4.patch, reported to the coordinator)
+            opts += ['larr', '&larr[%s & 7]' % self.ivar(), '&larr[1]'] + (['&l'] if ADDR_OF_SCALAR else [])
         if kind == 'pcl':
             opts += ['ctab@N@', 'pl', '&ctab@N@[2]']
         if kind == 'pvi':
